@@ -693,11 +693,43 @@ func init() {
 		Floor: 2,
 		Run: func(c *Ctx, s *core.Sink) {
 			e := BuildEff(c)
+			// the callbacks: function values (literals or named functions) handed to an option constructor by the package
+			// initialiser that builds the predefined profiles
+			cbs := map[*ssa.Function]bool{}
 			for _, f := range e.Fns {
-				if core.PkgPathOf(f) != core.ModPath+"/canonicalizer" || f.Parent() == nil || !isInitializer(f) {
+				if core.PkgPathOf(f) != core.ModPath+"/canonicalizer" || !isInitializer(f) {
 					continue
 				}
+				for _, b := range f.Blocks {
+					for _, ins := range b.Instrs {
+						call, ok := ins.(*ssa.Call)
+						if !ok {
+							continue
+						}
+						for _, a := range call.Common().Args {
+							switch x := a.(type) {
+							case *ssa.Function:
+								cbs[x] = true
+							case *ssa.MakeClosure:
+								if fn, ok := x.Fn.(*ssa.Function); ok {
+									cbs[fn] = true
+								}
+							}
+						}
+					}
+				}
+			}
+			var fs []*ssa.Function
+			for f := range cbs {
+				fs = append(fs, f)
+			}
+			sort.Slice(fs, func(i, j int) bool { return fs[i].String() < fs[j].String() })
+			for _, f := range fs {
 				sum := e.Sum(f)
+				if sum == nil {
+					s.Unknown("pure/"+core.FuncName(f), c.P.Pos(f.Pos()), "no effect summary for the callback")
+					continue
+				}
 				key := "pure/" + core.FuncName(f)
 				if len(sum.Mut) > 0 {
 					s.Bad(key, c.P.Pos(f.Pos()), "profile callback writes "+strings.Join(sum.Mut.sorted(), ", "))
